@@ -408,6 +408,10 @@ add("C23", "fixed", "nsdict:outcome-differs:ok-vs-twin-TemplateNotFoundError", "
     "get_template('t1', ns='A') fell back to the plain 't1', the plain request for 'A/t1' (which does not exist) was answered with it; namespace 'a' + 'b/c' and namespace 'a/b' + 'c' shared an entry too",
     [], "038492f")
 
+add("C26", "fixed", "filter:raises-TranslationValueError:placeholder", "the translation filters' placeholder pattern took word characters only: '%(user-name)s' with the keyword argument user-name "
+    "(a valid name, and one the translate tag handles) was not found and formatting raised TranslationValueError",
+    [{"kind": "filter", "filter": "t", "msg": "Hi %(user-name)s", "literal": True, "async": False, "vars": {"user-name": "Ann"}}], "546ab5d")
+
 if __name__ == "__main__":
     # further entries are appended by tools/mkfindings.py from triaged replay files and kept in findings_extra.json
     extra_path = os.path.join(VERIF, "tools", "findings_extra.json")
